@@ -76,6 +76,12 @@ func (b *Builder) signV2Inputs(txn *types.V2Transaction) {
 // ResignV2 re-signs every input of txn against the builder's state.
 func (b *Builder) ResignV2(txn *types.V2Transaction) { b.signV2Inputs(txn) }
 
+// ResignV1 signs a v1 transaction again after its contents were changed.
+func (b *Builder) ResignV1(txn *types.Transaction) {
+	txn.Signatures = nil
+	b.signV1Inputs(txn)
+}
+
 func (b *Builder) fee() types.Currency {
 	return types.Siacoins(1).Div64(uint64(10 + b.Rng.IntN(90)))
 }
